@@ -1,5 +1,4 @@
-import BV.Lemmas.StreamRunLog
-import BV.Model.StreamRun
+import BV.Lemmas.StreamRunClosed
 /-
 Whole histories: `run` over a list of calls has a LOG (list of events) that determines the
 delivered bit stream, the positions and the request list.
@@ -37,7 +36,8 @@ theorem logPos_ip_le (p : Pos) (log : List Ev) : (logPos p log).ip ≤ p.ip + lo
 
 /-- `take_output` on the emitted stream, the positions and the invariants -/
 theorem take_facts {s s' : St} {size : Nat} {out : Bytes} (hR : RunOK s) (h : takeOutput s size = .ok (s', out)) (d : Bytes) :
-    RunOK s' ∧ emitted (d ++ out) s' = emitted d s ∧ s'.pos = s.pos ∧ s'.isInitialized = s.isInitialized := by
+    RunOK s' ∧ emitted (d ++ out) s' = emitted d s ∧ s'.pos = s.pos ∧ s'.isInitialized = s.isInitialized
+    ∧ s'.params = s.params := by
   rcases hR.inv with hf | hI
   · obtain ⟨_, hp, _, hno, _⟩ := isFresh_fields hf
     have : takeOutput s size = .ok (s, []) := by
@@ -47,24 +47,24 @@ theorem take_facts {s s' : St} {size : Nat} {out : Bytes} (hR : RunOK s) (h : ta
     rw [this] at h
     simp only [Out.ok.injEq, Prod.mk.injEq] at h
     obtain ⟨rfl, rfl⟩ := h
-    exact ⟨hR, by rw [List.append_nil], rfl, rfl⟩
+    exact ⟨hR, by rw [List.append_nil], rfl, rfl, rfl⟩
   · obtain ⟨hI', hp, _, hst⟩ := takeOutput_spec hI h
-    have hlb : s'.lastBytes = s.lastBytes ∧ s'.lastBytesBits = s.lastBytesBits ∧ s'.pos = s.pos := by
+    have hlb : s'.lastBytes = s.lastBytes ∧ s'.lastBytesBits = s.lastBytesBits ∧ s'.pos = s.pos ∧ s'.params = s.params := by
       unfold takeOutput at h
       split at h
       · simp at h
       · split at h
         · simp only [Out.ok.injEq, Prod.mk.injEq] at h
           obtain ⟨rfl, _⟩ := h
-          obtain ⟨_, _, _, _, _, _, _, _, k9, k10, _⟩ := checkFlushComplete_frame (takeAdvance s (takeCount s size))
-          exact ⟨k9, k10, by rw [checkFlushComplete_pos]; rfl⟩
+          obtain ⟨k1, _, _, _, _, _, _, _, k9, k10, _⟩ := checkFlushComplete_frame (takeAdvance s (takeCount s size))
+          exact ⟨k9, k10, by rw [checkFlushComplete_pos]; rfl, k1⟩
         · simp only [Out.ok.injEq, Prod.mk.injEq] at h
           obtain ⟨rfl, _⟩ := h
-          exact ⟨rfl, rfl, rfl⟩
-    have hpos := hlb.2.2
+          exact ⟨rfl, rfl, rfl, rfl⟩
+    have hpos := hlb.2.2.1
     have hip : s'.inputPos = s.inputPos := congrArg Pos.ip hpos
     have hlf : s'.lastFlushPos = s.lastFlushPos := congrArg Pos.lf hpos
-    refine ⟨⟨Or.inr hI', ⟨carryOK_eq hR.frame.carry hlb.1 hlb.2.1, ?_⟩⟩, ?_, hpos, by rw [hI'.init, hI.init]⟩
+    refine ⟨⟨Or.inr hI', ⟨carryOK_eq hR.frame.carry hlb.1 hlb.2.1, ?_⟩⟩, ?_, hpos, by rw [hI'.init, hI.init], hlb.2.2.2⟩
     · intro hb
       rcases hst with h1 | ⟨_, _, h1⟩
       · rw [hlb.2.1, hip, hlf]; exact hR.frame.body (h1 ▸ hb)
@@ -107,13 +107,54 @@ structure RunFacts (o : Oracle) (s0 : St) (t0 : Trace) (s : St) (t : Trace) (log
   lok : LogOK s0.pos log
   reqs : t.reqs = t0.reqs ++ logReqs log
   win : WinShape s0 s log
+  q : s0.isInitialized = true → s.q01 = s0.q01
+  cl : LogCl o s.q01 s0.pos log
+  closed : t.closed = t0.closed ++ closedFlags o s.q01 s0.nEnc (logReqs log)
+
+theorem logPos_k' (p : Pos) (log : List Ev) : (logPos p log).k = p.k + (logReqs log).length := by
+  induction log generalizing p with
+  | nil => rfl
+  | cons e es ih =>
+    show (logPos (e.step p) es).k = p.k + (logReqs (e :: es)).length
+    rw [ih]
+    cases e <;> simp [Ev.step, logReqs, Ev.req, List.filterMap_cons] <;> omega
 
 theorem RunFacts.refl (o : Oracle) {s : St} (t : Trace) (h : RunOK s) : RunFacts o s t s t [] :=
-  ⟨h, by simp [logBits], rfl, trivial, by simp [logReqs], winShape_nil rfl⟩
+  ⟨h, by simp [logBits], rfl, trivial, by simp [logReqs], winShape_nil rfl, fun _ => rfl, trivial, by simp [logReqs, closedFlags]⟩
 
 theorem RunFacts.trans {o : Oracle} {s0 s1 s2 : St} {t0 t1 t2 : Trace} {l1 l2 : List Ev}
     (h1 : RunFacts o s0 t0 s1 t1 l1) (h2 : RunFacts o s1 t1 s2 t2 l2) : RunFacts o s0 t0 s2 t2 (l1 ++ l2) := by
-  refine ⟨h2.ok, ?_, ?_, ?_, ?_, winShape_trans h1.win h2.win⟩
+  -- either nothing has happened before `s1` was initialised, or the quality class is fixed from `s1` on
+  have hq12 : l1 = [] ∨ s2.q01 = s1.q01 := by
+    cases hi : s1.isInitialized
+    · left
+      rcases h1.win with ⟨_, _, a3⟩ | ⟨_, a2, _⟩ | ⟨_, a2, _⟩
+      · exact a3
+      · rw [hi] at a2; cases a2
+      · rw [hi] at a2; cases a2
+    · exact Or.inr (h2.q hi)
+  have hk : s1.nEnc = s0.nEnc + (logReqs l1).length := by
+    have := congrArg Pos.k h1.pos
+    rw [logPos_k'] at this
+    exact this
+  refine ⟨h2.ok, ?_, ?_, ?_, ?_, winShape_trans h1.win h2.win, ?_, ?_, ?_⟩
+  rotate_left 4
+  · intro hi0
+    have hi1 : s1.isInitialized = true := by
+      rcases h1.win with ⟨a1, _, _⟩ | ⟨a1, _, _⟩ | ⟨_, a2, _⟩
+      · rw [hi0] at a1; cases a1
+      · rw [hi0] at a1; cases a1
+      · exact a2
+    rw [h2.q hi1, h1.q hi0]
+  · rcases hq12 with rfl | hq
+    · have : s1.pos = s0.pos := h1.pos
+      rw [← this]; exact h2.cl
+    · refine logCl_append (by rw [hq]; exact h1.cl) ?_
+      rw [← h1.pos]; exact h2.cl
+  · rw [h2.closed, h1.closed, logReqs_append, closedFlags_append, List.append_assoc, hk]
+    rcases hq12 with rfl | hq
+    · simp [logReqs, closedFlags]
+    · rw [hq]
   · rw [h2.bits, h1.bits, logBits_append, List.append_assoc]
   · rw [h2.pos, h1.pos, logPos_append]
   · exact logOK_append h1.lok (by rw [← h1.pos]; exact h2.lok)
@@ -123,11 +164,6 @@ theorem RunFacts.trans {o : Oracle} {s0 s1 s2 : St} {t0 t1 t2 : Trace} {l1 l2 : 
 def CallOK (s : St) : Call → Prop
   | .stream op chunk _ => op ≤ 3 ∧ s.inputPos + chunk.length < two64
   | _ => True
-
-/-- bytes a call offers -/
-def Call.len : Call → Nat
-  | .stream _ chunk _ => chunk.length
-  | _ => 0
 
 /-- **one call of a history** -/
 theorem runCall_facts {o : Oracle} {fuel : Nat} {s s' : St} {t t' : Trace} {c : Call} (hR : RunOK s) (hc : CallOK s c)
@@ -142,7 +178,8 @@ theorem runCall_facts {o : Oracle} {fuel : Nat} {s s' : St} {t t' : Trace} {c : 
       obtain ⟨_, hp, hip, _, hl⟩ := isFresh_fields hf
       obtain ⟨_, hp', hip', _, hl'⟩ := isFresh_fields hf'
       refine ⟨by rw [hip', hip]; exact Nat.zero_le _, [], runOK_fresh hf', ?_, ?_, trivial, by simp [logReqs],
-        winShape_nil (by rw [isFreshInit hf, isFreshInit hf'])⟩
+        winShape_nil (by rw [isFreshInit hf, isFreshInit hf']), (fun hi => by rw [isFreshInit hf] at hi; cases hi), trivial,
+        by simp [logReqs, closedFlags]⟩
       · simp only [deliveredBits, logBits, List.flatMap_nil, List.append_nil]
         rw [hp, hp']
         unfold St.carry
@@ -153,16 +190,18 @@ theorem runCall_facts {o : Oracle} {fuel : Nat} {s s' : St} {t t' : Trace} {c : 
         rw [hp']; rfl
     · have : setParameter s id v = (s, false) := by simp [setParameter, hI.init]
       rw [this]
-      exact ⟨Nat.le_add_right _ _, [], hR, by simp [deliveredBits, logBits], rfl, trivial, by simp [logReqs], winShape_nil rfl⟩
+      exact ⟨Nat.le_add_right _ _, [], hR, by simp [deliveredBits, logBits], rfl, trivial, by simp [logReqs], winShape_nil rfl,
+        (fun _ => rfl), trivial, by simp [logReqs, closedFlags]⟩
   | take size =>
     simp only [runCall] at h
     split at h
     · rename_i s1 out htake
       simp only [Out.ok.injEq, Prod.mk.injEq] at h
       obtain ⟨rfl, rfl⟩ := h
-      obtain ⟨hR', hb, hp, hini⟩ := take_facts hR htake t.delivered
+      obtain ⟨hR', hb, hp, hini, hpar⟩ := take_facts hR htake t.delivered
       have hipe : s1.inputPos = s.inputPos := congrArg Pos.ip hp
-      refine ⟨by rw [hipe]; exact Nat.le_add_right _ _, [], hR', ?_, hp, trivial, by simp [logReqs], winShape_nil hini⟩
+      refine ⟨by rw [hipe]; exact Nat.le_add_right _ _, [], hR', ?_, hp, trivial, by simp [logReqs], winShape_nil hini,
+        (fun _ => by unfold St.q01; rw [hpar]), trivial, by simp [logReqs, closedFlags]⟩
       simp only [deliveredBits, logBits, List.flatMap_nil, List.append_nil]
       exact hb
     · simp at h
@@ -179,24 +218,26 @@ theorem runCall_facts {o : Oracle} {fuel : Nat} {s s' : St} {t t' : Trace} {c : 
           compressStream o fuel si op chunk cap = .ok (s1, io, r) →
           ∃ log, RunOK s1 ∧ emitted (t.delivered ++ io.out) s1 = emitted t.delivered si ++ logBits o log
             ∧ s1.pos = logPos si.pos log ∧ LogOK si.pos log ∧ io.reqs = logReqs log
-            ∧ s1.inputPos ≤ si.inputPos + chunk.length ∧ NoWindow log ∧ s1.isInitialized = true := by
+            ∧ s1.inputPos ≤ si.inputPos + chunk.length ∧ NoWindow log ∧ s1.isInitialized = true
+            ∧ s1.q01 = si.q01 ∧ LogCl o si.q01 si.pos log := by
         intro si hI hF hw' hcs'
         cases r
         · obtain ⟨hs, hio⟩ := refused_unchanged hop hI hw' hcs'
           subst hio
           rcases hs with rfl | rfl
           · exact ⟨[], ⟨Or.inr hI, hF⟩, by simp [logBits, Io.start], rfl, trivial, by simp [logReqs, Io.start], Nat.le_add_right _ _,
-              (fun _ he => by cases he), hI.init⟩
+              (fun _ he => by cases he), hI.init, rfl, trivial⟩
           · obtain ⟨_, _, _, _, _, u6, _, _, u9, u10, _, _, u13, u14, u15⟩ := updateSizeHint_fields si 0
             refine ⟨[], ⟨Or.inr (inv_updateSizeHint hI 0), frameInv_of_eq hF u15 u14 u9 u6 u10⟩, ?_,
               by rw [updateSizeHint_pos]; rfl, trivial, by simp [logReqs, Io.start], by rw [u6]; exact Nat.le_add_right _ _,
-              (fun _ he => by cases he), (inv_updateSizeHint hI 0).init⟩
+              (fun _ he => by cases he), (inv_updateSizeHint hI 0).init, q01_congr (updateSizeHint_fields si 0).2.1, trivial⟩
             simp only [logBits, List.flatMap_nil, List.append_nil, Io.start]
             exact emitted_eq rfl u13 u15 u14
         · obtain ⟨log, hsteps⟩ := call_steps hop hI hw' hcs'
           have f := steps_facts hsteps hF t.delivered
           have hI1 := ((compressStream_refines hop hI hw' hcs').2 rfl).1
-          refine ⟨log, ⟨Or.inr hI1, f.frame⟩, ?_, f.pos, f.ok, ?_, ?_, (f.initd hI.init).2, hI1.init⟩
+          obtain ⟨cq, ccl⟩ := steps_cl (o := o) hsteps hI.init
+          refine ⟨log, ⟨Or.inr hI1, f.frame⟩, ?_, f.pos, f.ok, ?_, ?_, (f.initd hI.init).2, hI1.init, cq, ccl⟩
           rotate_left 2
           · have h1 := logPos_ip_le si.pos log
             have h2 := f.used
@@ -220,13 +261,21 @@ theorem runCall_facts {o : Oracle} {fuel : Nat} {s s' : St} {t t' : Trace} {c : 
         have hipe : (ensureInitialized s).inputPos = 0 := by
           obtain ⟨p, rfl⟩ := hf
           simp [ensureInitialized, St.new]
-        obtain ⟨log, k1, k2, k3, k4, k5, k6, k7, k8⟩ := key (ensureInitialized s) hIe hFe (by rw [hipe]; rw [hip] at hw; exact hw) hcs
+        obtain ⟨log, k1, k2, k3, k4, k5, k6, k7, k8, k9, k10⟩ := key (ensureInitialized s) hIe hFe (by rw [hipe]; rw [hip] at hw; exact hw) hcs
         have hinit : Step o op (s, Io.start chunk cap) (.window (ensureInitialized s).carry) (ensureInitialized s, Io.start chunk cap) :=
           Step.init hf
         have hb0 := step_emitted hR.frame hinit t.delivered
         obtain ⟨q1, q2, _⟩ := step_pos hinit
         refine ⟨by rw [hipe] at k6; rw [hip]; exact k6, .window (ensureInitialized s).carry :: log, k1, ?_, ?_, ⟨q2, by rw [← q1]; exact k4⟩, ?_,
-          Or.inr (Or.inl ⟨hini, k8, _, _, rfl, k7⟩)⟩
+          Or.inr (Or.inl ⟨hini, k8, _, _, rfl, k7⟩), (fun hi => by rw [hini] at hi; cases hi), ⟨trivial, ?_⟩, ?_⟩
+        rotate_left 3
+        · rw [← q1, k9]; exact k10
+        · have hk : (ensureInitialized s).nEnc = s.nEnc := by
+            have := congrArg Pos.k q1
+            exact this
+          simp only [Trace.afterStream]
+          rw [k5, k9, hk]
+          simp [logReqs, Ev.req, List.filterMap_cons]
         · simp only [deliveredBits, Trace.afterStream]
           show emitted (t.delivered ++ io.out) s1 = emitted t.delivered s ++ logBits o (.window (ensureInitialized s).carry :: log)
           rw [k2]
@@ -237,25 +286,17 @@ theorem runCall_facts {o : Oracle} {fuel : Nat} {s s' : St} {t t' : Trace} {c : 
         · simp only [Trace.afterStream]
           rw [k5]
           simp [logReqs, Ev.req, List.filterMap_cons]
-      · obtain ⟨log, k1, k2, k3, k4, k5, k6, k7, k8⟩ := key s hI hR.frame hw hcs
-        refine ⟨k6, log, k1, ?_, k3, k4, ?_, Or.inr (Or.inr ⟨hI.init, k8, k7⟩)⟩
+      · obtain ⟨log, k1, k2, k3, k4, k5, k6, k7, k8, k9, k10⟩ := key s hI hR.frame hw hcs
+        refine ⟨k6, log, k1, ?_, k3, k4, ?_, Or.inr (Or.inr ⟨hI.init, k8, k7⟩), (fun _ => k9), by rw [k9]; exact k10, ?_⟩
+        rotate_left 2
+        · simp only [Trace.afterStream]
+          rw [ensureInitialized_id hI.init, k5, k9]
         · simp only [deliveredBits, Trace.afterStream]
           exact k2
         · simp only [Trace.afterStream]
           rw [k5]
     · simp at h
     · simp at h
-
-/-- total number of bytes a history offers -/
-def histLen : List Call → Nat
-  | [] => 0
-  | c :: cs => c.len + histLen cs
-
-/-- operation codes in range -/
-def HistOK : List Call → Prop
-  | [] => True
-  | .stream op _ _ :: cs => op ≤ 3 ∧ HistOK cs
-  | _ :: cs => HistOK cs
 
 /-- **a whole history has a log** that determines the delivered bits, the positions and the requests -/
 theorem run_facts {o : Oracle} {fuel : Nat} {calls : List Call} {s0 s : St} {t0 t : Trace} (hR : RunOK s0)
